@@ -538,6 +538,8 @@ impl Regs {
     pub fn update_flags_block_mem_cycle(&mut self) {
         self.f &= !(FLAG_F3 | FLAG_F5);
         self.f |= (self.pc >> 8) as u8 & (FLAG_F3 | FLAG_F5);
+        // Instruction changes F, therefore update Q
+        self.q = self.f;
     }
 
     /// Obscure logic for changing flags after block io opcode iteration,
